@@ -183,3 +183,6 @@ def r4(run, db):
 Q = ["rc"]
 TH = ["rc", "rcatr"]
 RULES = [{"id": "C18.R%d" % i, "fn": f, "quick": Q, "thorough": TH} for i, f in enumerate([r1, r2, r3, r4], 1)]
+from .positive import control
+RULES.append({"id": "C18.P", "fn": control('positional'), "quick": ["pos"], "thorough": ["pos"]})
+DOC["C18.P"] = 'positive control: planted positional/first-match election must be reported by the order-sensitivity detector'
